@@ -915,6 +915,12 @@ struct Cell {
 };
 static_assert(std::is_copy_constructible<Cell>::value && std::is_copy_assignable<Cell>::value, "Cell");
 
+// a value handed to the library as an lvalue still belongs to the caller afterwards
+inline void still_holds(const Cell& v, uint32_t id, const char* op)
+{
+    if (v.n != 1 || v.ids[0] != id)
+        raise_violation("oracle:library_moved_from_an_lvalue_argument", std::string("{\"op\":\"") + op + "\",\"n\":" + std::to_string(v.n) + "}");
+}
 // RAII access window opened by harness code while it uses a handle / runs inside a functor
 struct Win {
     const Cell& c;
